@@ -238,6 +238,25 @@ def entry_point_mismatch(ast, items, stateless=False):
     return None
 
 
+def reapplication_mismatch(ast, trace, runs=2):
+    """The operator values of the pipeline are built once and applied to `runs` fresh sources (with a fresh store
+    each): every application must behave like the first (tee_map included: each application publishes anew)."""
+    ast = strip_taps(ast)
+    try:
+        rs_ = muxlib.run_mux_twice(ast, trace, runs=runs, reapply=True)
+    except Exception as e:
+        return 'applying the operator values a second time raised %s: %s' % (type(e).__name__, str(e)[:120])
+    for j in range(1, len(rs_)):
+        if rs_[j] != rs_[0]:
+            p = next((i for i, (a, b) in enumerate(zip(rs_[0]['steps'], rs_[j]['steps'])) if a != b), None)
+            if p is None:
+                return 'application %d of the same operator values ends with %s, the first with %s' % (
+                    j + 1, json.dumps(rs_[j]['final'])[:160], json.dumps(rs_[0]['final'])[:160])
+            return 'application %d of the same operator values emits %s while event %d is pushed, the first application emitted %s' % (
+                j + 1, json.dumps(rs_[j]['steps'][p])[:200], p, json.dumps(rs_[0]['steps'][p])[:200])
+    return None
+
+
 def resubscription_mismatch(ast, trace, runs=2):
     """One pipeline object subscribed several times in sequence (cold source replaying the trace): every
     subscription must emit what the first one emitted, dead letters and their completion included.
@@ -263,7 +282,8 @@ def resubscription_mismatch(ast, trace, runs=2):
 
 def hostile_environment_failure(case, obs):
     """Generic judgements for every mux module: the delivered stream is well-formed; and an environment behaviour every keyed pipeline must tolerate, tried on a deterministic quarter of the cases of
-    every mux module (tee_map excluded: publish() is single-use): the pipeline object is subscribed a second time.
+    every mux module (tee_map excluded: publish() is single-use): the pipeline object is subscribed a second time;
+    on another quarter (tee_map included) the operator VALUES are built once and applied to two sources.
     (A subscriber that mutates what it receives is NOT a sound generic test: operators legitimately keep references
     to the items they were given - lag, distinct_until_changed, a running max - so it is applied only where the
     emitted value is created by the operator itself: the reduce results of C09.)"""
@@ -285,9 +305,14 @@ def hostile_environment_failure(case, obs):
         v = protocol_violation(final)
         if v:
             return {'sig': 'environment:output-protocol', 'what': 'stream delivered to the subscriber: ' + v}
+    sel = zlib.crc32(json.dumps([ast, case['trace']], sort_keys=True, default=repr).encode()) % 4
+    if sel == 1 or (sel == 2 and 'tee' in ks):
+        # operator values stored and used in a second pipeline (tee_map included)
+        m = reapplication_mismatch(ast, case['trace'])
+        if m:
+            return {'sig': 'environment:operator-values-applied-twice', 'what': m}
     if 'tee' in ks:
         return None
-    sel = zlib.crc32(json.dumps([ast, case['trace']], sort_keys=True, default=repr).encode()) % 4
     if sel == 0:
         m = resubscription_mismatch(ast, case['trace'])
         if m:
